@@ -190,6 +190,7 @@ def _select(case, V, st):
             for tt in TIMES:
                 g.getAllData()[:] = float(tt)
                 g.writeH5Dataset(pool, tt)
+                g.getAllData()[:] = -(float(tt) + 0.5)          # the other family of files holds something else
                 g.writeH5Dataset(pool, tt, 'phi')
         sim.run_world([1, 1], wfn)
         for k, sub in enumerate(case['subsets']):
@@ -218,16 +219,19 @@ def _select(case, V, st):
                     if float(g2.getAllData().max()) != float(max(sub)):
                         probs.append('loadFromFile:latest')
                     g2.loadFromFile(F, nameConvention='phi')
-                    if float(g2.getAllData().max()) != float(max(sub)):
+                    if float(g2.getAllData().max()) != -(float(max(sub)) + 0.5) or float(g2.getAllData().min()) != -(float(max(sub)) + 0.5):
                         probs.append('loadFromFile:latest-phi')
                     for x in sub:
                         g2.loadFromFile(F, x)
-                        if float(g2.getAllData().max()) != float(x):
+                        if float(g2.getAllData().max()) != float(x) or float(g2.getAllData().min()) != float(x):
                             probs.append('loadFromFile:time')
+                        g2.loadFromFile(F, x, 'phi')             # a requested time together with a name
+                        if float(g2.getAllData().max()) != -(float(x) + 0.5) or float(g2.getAllData().min()) != -(float(x) + 0.5):
+                            probs.append('loadFromFile:time-phi')
                     return probs
-                st['evals'] += 2 + 2 * len(sub)
+                st['evals'] += 2 + 3 * len(sub)
                 if digits:
-                    st['nontrivial'] += 2 + 2 * len(sub)
+                    st['nontrivial'] += 2 + 3 * len(sub)
                 try:
                     res, _ = sim.run_world(rg, rfn)
                     for probs in res:
